@@ -126,7 +126,7 @@ CHECKS = {
               "signers, sudo hand-over) followed by the real end_block; the returned update batch is folded over the validator set "
               "at block start with CometBFT's rules (a removal must name a member, the set must stay non-empty) and must equal the "
               "stored validator set and count."),
-        note=TL_NOTE + " Post-Aspen storage only in this revision.",
+        note=TL_NOTE + " Two universes: post-Blackburn chain and a chain that has not reached Aspen (legacy validator-set storage); a history crossing the upgrade height is not explored. One known finding (pre-Aspen) listed in known_findings.txt.",
         design_ref="2 C14",
     ),
     "C05": dict(
